@@ -3,6 +3,7 @@ package rules
 import (
 	"go/token"
 	"go/types"
+	"strconv"
 	"strings"
 
 	"gldapverif/an"
@@ -67,7 +68,27 @@ func (c *Ctx) checkSID() {
 	if len(ws) > 0 {
 		pos = c.pos(ws[0].call)
 	}
-	R.Check(ok, "C16-sid-siblings", "SIDBytes writes a prefix of what SIDBytesToString reads", pos, sprintf("%d writes / %d reads agree in byte order and width", len(ws), len(rs)), "SID writer and reader disagree: "+detail)
+	how := sprintf("%d writes / %d reads agree in byte order and width", len(ws), len(rs))
+	if len(ws) == 0 {
+		// the writer fills a fixed-size byte slice directly (indexed stores, binary.<Order>.PutUintN): compare the two
+		// layouts byte by byte; bytes the writer leaves zero fit any reader field
+		if wl, whyNot := directByteLayout(w); wl != nil {
+			rl := readLayout(rs)
+			ok, detail = true, ""
+			for i, tok := range wl {
+				switch {
+				case i >= len(rl):
+					ok, detail = false, sprintf("byte %d is written but the fixed part the reader reads is %d bytes", i, len(rl))
+				case tok != "zero" && tok != rl[i]:
+					ok, detail = false, sprintf("byte %d is written as %s but read as %s", i, tok, rl[i])
+				}
+			}
+			how = sprintf("%d bytes written directly agree, byte by byte, in order and width with the %d reads", len(wl), len(rs))
+		} else {
+			detail = "no binary.Write sequence and no direct fixed-size byte layout recognised in SIDBytes (" + whyNot + ")"
+		}
+	}
+	R.Check(ok, "C16-sid-siblings", "SIDBytes writes a prefix of what SIDBytesToString reads", pos, how, "SID writer and reader disagree: "+detail)
 	// every binary.Read / binary.Write error is returned
 	for _, f := range []*ssa.Function{w, r} {
 		c.checkErrorsPropagateLib("C16-sid-siblings", f, "encoding/binary")
@@ -483,4 +504,146 @@ func byteValuesFromStrings(v ssa.Value, depth int, seen map[ssa.Value]bool) bool
 		}
 	}
 	return false
+}
+
+// byteTokens expands a binary.Read/Write datum type into one token per byte.
+func byteTokens(order, typ string) []string {
+	n := 1
+	elem := typ
+	if strings.HasPrefix(typ, "[") {
+		i := strings.Index(typ, "]")
+		k, err := strconv.Atoi(typ[1:i])
+		if err != nil {
+			return nil // a slice: variable part
+		}
+		n, elem = k, typ[i+1:]
+	}
+	w := map[string]int{"uint8": 1, "int8": 1, "byte": 1, "uint16": 2, "int16": 2, "uint32": 4, "int32": 4, "uint64": 8, "int64": 8}[elem]
+	if w == 0 {
+		return nil
+	}
+	var out []string
+	for e := 0; e < n; e++ {
+		for b := 0; b < w; b++ {
+			if w == 1 {
+				out = append(out, "byte")
+			} else {
+				out = append(out, sprintf("%s%d.%d", order, 8*w, b))
+			}
+		}
+	}
+	return out
+}
+
+// readLayout: the fixed-size prefix the reader's binary.Read calls consume.
+func readLayout(rs []binIO) []string {
+	var out []string
+	for _, r := range rs {
+		t := byteTokens(r.order, r.typ)
+		if t == nil {
+			break
+		}
+		out = append(out, t...)
+	}
+	return out
+}
+
+// directByteLayout: f returns a byte slice made with a constant length whose
+// bytes are set by constant-index stores and binary.<Order>.PutUintN calls
+// at constant offsets; everything else stays zero.
+func directByteLayout(f *ssa.Function) ([]string, string) {
+	var buf ssa.Value // the slice value
+	var n int64
+	an.Instrs(f, func(in ssa.Instruction) {
+		switch x := in.(type) {
+		case *ssa.MakeSlice:
+			if k, ok := an.IntConst(x.Len); ok && buf == nil {
+				buf, n = x, k
+			}
+		case *ssa.Slice:
+			if pt, ok := x.X.Type().Underlying().(*types.Pointer); ok && buf == nil {
+				if at, ok := pt.Elem().Underlying().(*types.Array); ok {
+					if _, isAl := x.X.(*ssa.Alloc); isAl && x.Low == nil {
+						hi := at.Len()
+						if x.High != nil {
+							if k, ok := an.IntConst(x.High); ok {
+								hi = k
+							}
+						}
+						buf, n = x, hi
+					}
+				}
+			}
+		}
+	})
+	if buf == nil || n <= 0 || n > 4096 {
+		return nil, "no make([]byte, constant)"
+	}
+	for _, ret := range an.Returns(f) {
+		res := an.ReturnResults(ret)
+		if !an.IsNilConst(an.Strip(res[0])) && an.Strip(res[0]) != buf {
+			return nil, "returns something else than the made slice"
+		}
+	}
+	out := make([]string, n)
+	for i := range out {
+		out[i] = "zero"
+	}
+	bad := ""
+	for _, ref := range *buf.Referrers() {
+		switch x := ref.(type) {
+		case *ssa.IndexAddr:
+			k, ok := an.IntConst(x.Index)
+			if !ok || k < 0 || k >= n {
+				bad = "non-constant index store"
+				continue
+			}
+			for _, u := range *x.Referrers() {
+				if st, isSt := u.(*ssa.Store); isSt && st.Addr == ssa.Value(x) {
+					if z, isC := an.IntConst(st.Val); isC && z == 0 {
+						continue
+					}
+					out[k] = "byte"
+				}
+			}
+		case *ssa.Slice:
+			lo := int64(0)
+			okLo := true
+			if x.Low != nil {
+				lo, okLo = an.IntConst(x.Low)
+			}
+			for _, u := range *x.Referrers() {
+				ci, isCall := u.(ssa.CallInstruction)
+				if !isCall {
+					continue
+				}
+				g := ci.Common().StaticCallee()
+				if g == nil || an.FuncPkgPath(g) != "encoding/binary" || !strings.HasPrefix(g.Name(), "PutUint") || g.Signature.Recv() == nil || !okLo {
+					bad = "the slice is handed to something else than binary.<Order>.PutUintN at a constant offset"
+					continue
+				}
+				bits, _ := strconv.Atoi(strings.TrimPrefix(g.Name(), "PutUint"))
+				order := "BigEndian"
+				if strings.Contains(strings.ToLower(g.Signature.Recv().Type().String()), "little") {
+					order = "LittleEndian"
+				}
+				for b := 0; b < bits/8; b++ {
+					if lo+int64(b) >= n {
+						bad = "PutUint past the end of the slice"
+						break
+					}
+					out[lo+int64(b)] = sprintf("%s%d.%d", order, bits, b)
+				}
+			}
+		case *ssa.Return, *ssa.DebugRef, *ssa.Store:
+		default:
+			if _, isCall := ref.(ssa.CallInstruction); isCall {
+				bad = "the slice is passed to a call"
+			}
+		}
+	}
+	if bad != "" {
+		return nil, bad
+	}
+	return out, ""
 }
